@@ -46,6 +46,8 @@ def _worker(args):
     if quiet:
         devnull = open(os.devnull, "w")
         sys.stdout = devnull
+        import warnings
+        warnings.simplefilter("ignore")
     rec = Recorder(g.get("name", ""), only=only)
     out = {"group": g.get("name", ""), "harness_error": None}
     try:
